@@ -1006,6 +1006,8 @@ class Ambiguity:
         """
 
         self.update = True
+        self.model.pupdate = True
+        self.model.dupdate = True
         return self.s.suppset(*args)
 
     def exptset(self, *args):
@@ -1027,6 +1029,8 @@ class Ambiguity:
         """
 
         self.update = True
+        self.model.pupdate = True
+        self.model.dupdate = True
         return self.s.exptset(*args)
 
     def probset(self, *args):
@@ -1048,6 +1052,8 @@ class Ambiguity:
         """
 
         self.update = True
+        self.model.pupdate = True
+        self.model.dupdate = True
         for arg in args:
             if arg.model is not self.model.pro_model:
                 raise ValueError('Constraints are not defined for the ' +
